@@ -547,3 +547,40 @@ def dsdcyl_params(draw):
     a2 = draw(st.one_of(st.just(0.0), uni(0.0, 0.9))) * D2 * r2
     return dict(r_1=r1, r_2=r2, D_CJ_1=D1, D_CJ_2=D2, alpha_1=a1, alpha_2=a2,
                 t_d=draw(st.one_of(st.just(0.0), uni(-2.0, 2.0))))
+
+
+# ---------------------------------------------------------------- heat conduction: rod family
+ROD = 'exactpack.solvers.heat.rod1d.Rod1D'
+HEAT = 'exactpack.solvers.heat.'
+
+
+@st.composite
+def rod_params(draw, bc=None, nsum=None):
+    """BC1..BC4 of the 1-D rod with inhomogeneous data"""
+    bc = bc or draw(st.sampled_from([1, 2, 3, 4]))
+    L = draw(st.one_of(st.just(2.0), logu(0.3, 5.0)))
+    kappa = draw(st.one_of(st.just(1.0), logu(0.1, 10.0)))
+    TL, TR = draw(uni(-3.0, 5.0)), draw(uni(-3.0, 5.0))
+    if draw(st.integers(0, 3)) == 0:
+        TR = TL
+    a = draw(st.one_of(st.just(1.0), logu(0.3, 3.0)))     # non-unit alpha/beta exercise the gamma/alpha scaling
+    b = draw(st.one_of(st.just(1.0), logu(0.3, 3.0)))
+    c1, c2 = draw(st.one_of(st.just(0.0), uni(-2.0, 2.0))), draw(st.one_of(st.just(0.0), uni(-2.0, 2.0)))
+    N = nsum or draw(st.sampled_from([100, 200, 400]))
+    p = dict(L=L, kappa=kappa, TL=TL, TR=TR, Nsum=N)
+    if bc == 1:
+        p.update(alpha1=a, beta1=0.0, gamma1=c1, alpha2=b, beta2=0.0, gamma2=c2)
+    elif bc == 2:
+        p.update(alpha1=0.0, beta1=a, gamma1=c1 * a, alpha2=0.0, beta2=b, gamma2=c1 * b)   # equal fluxes required
+    elif bc == 3:
+        p.update(alpha1=a, beta1=0.0, gamma1=c1, alpha2=0.0, beta2=b, gamma2=c2)
+    else:
+        p.update(alpha1=0.0, beta1=a, gamma1=c1, alpha2=b, beta2=0.0, gamma2=c2)
+    return p, bc
+
+
+def rod_tmin(p, bc, eps=1e-13):
+    """time after which the first neglected mode is below eps (series truncation bound)"""
+    N = p['Nsum']
+    k = (N * math.pi / p['L']) if bc in (1, 2) else ((2 * N + 1) * math.pi / (2 * p['L']))
+    return -math.log(eps) / (p['kappa'] * k * k)
